@@ -514,7 +514,7 @@ func mutateNat(r *tr.Rand, s string) string {
 
 func main() {
 	runtime.GOMAXPROCS(1)
-	tr.Main("C20. mbits: every zero/non-zero pattern of every length 0..L (L=10 quick, 15 thorough) plus, for lengths up to 26 (40), all-zero, one and two non-zero bytes at every position; each at all 8 alignments inside a buffer with >= 8 guard bytes on both sides, guards 0xa5 and 0x00 (the whole buffer is compared after Zero). Scale: lengths 2^k-1, 2^k, 2^k+1 for k=5..13 and a few random ones up to 9000, at all 8 alignments, with the only non-zero bytes at the places that decide the counts (none, first, last, n-9, n-8, 7, 8, middle, random deep, both ends of a deep word) -- all 11 patterns up to 1100 bytes, 2-3 rotating ones above; Zero at every alignment up to 2100 bytes, at 2 of 8 alignments around 4096 and 1 of 8 around 8192 (quick; rotating with size and seed; thorough: all). Every non-zero byte value at every position of a 17-byte window. Trunc: every cut point n in -1..len+1 of every string of up to 3 (4) runes over an 11-rune alphabet of 1-4-byte encodings at the encoding-length boundaries, of every string of up to 4 (5) bytes over 8 valid/invalid byte classes, of random mixed strings, of every token of the wide alphabet (below) and every single byte value between neighbours of every width, of random strings of wide tokens; strings of 2^k-1..2^k+1 (+3) bytes, k=3..13, of one kind of rune (1-4 bytes, mixed) or of lead / continuation bytes only, cut at the start, middle and end; n = 2^62-1. CompareNatural: all ordered pairs of strings of length <= 3 (4) over {0 1 9 / : a}, all multisets of three strings of length <= 2 (the six comparisons of a triple are recorded and the order laws evaluated for every arrangement) and random triples of length <= 4, random longer strings with leading zeros and digit runs up to 25 digits paired with mutations of themselves; digit runs within 2 of 2^63, 2^64, 2^64+2^63, 2^65, 10^18, 10^19 bare, with leading zeros and embedded (all pairs, random triples), runs of 19-40 zeros. Wide alphabet: Unicode decimal digits outside ASCII (Nd; Arabic-Indic, Devanagari, Thai, full-width, mathematical, Brahmi, Adlam ...: 2-, 3- and 4-byte encodings), other numbers (No/Nl), Unicode spaces, non-ASCII letters, combining marks and joiners, 4-byte runes and the ends of the code space, invalid UTF-8 (stray continuation and lead bytes, overlong forms, surrogates, cut-off encodings of those digits) -- every token alone, before, after and inside ASCII digit runs and between letters (14 frames) against the same frame holding itself, its neighbour in the class, an ASCII digit, a zero, a letter, nothing, '/' and ':'; every byte value 0..255 in 8 frames; all ordered pairs of strings of up to 2 tokens and all multisets of three single tokens over 12 representatives, random triples of those; random strings of 1-6 tokens of all classes paired / tripled with mutations of themselves (same string, token exchanged within or across classes, ASCII digit for Unicode digit and back, leading zero of some script, token deleted / added / moved, one byte changed to any value, cut at any byte). Scale: strings agreeing on their first n bytes (one digit run, zeros, one run of letters, many short tokens, full-width digits, mixed runes), n around 2^k up to 2^11 (quick: fewer kinds per size above 300 bytes; thorough to 2^12), and strings of about 2^k bytes up to 2^13 differing within the first 30 bytes. Round 4: mbits on slices whose non-zero bytes are real text -- 52 tokens: well-formed 2-, 3- and 4-byte UTF-8 sequences, U+FFFD, a byte-order mark, surrogates, overlong forms incl. the overlong NUL c0 80, sequences beyond U+10FFFF, cut-off sequences, stray continuation bytes, ASCII -- at every position of windows up to 12 (20) bytes longer than the token, at the front / the back / both ends / the middle / followed or preceded by 1..9 zeros at all 8 alignments for 26 lengths up to 65, random pairs of tokens, whole lines of text, guards 0xa5, 0x00, 0x80, 0xbf, 0xc3; EVERY slice length 0..600 (all zero, text at the back, at the front, near both ends) and text at the ends and in the middle of slices of 2^k-1..2^k+1 bytes up to 8193; Trunc on every string length 0..600 cut around the end; CompareNatural on 15..19-digit numbers inside int64 that differ in the last digits only (2^49..2^62 and their neighbours, 2^53+1, powers of ten, runs of nines, random ones; v against v+1, +2, +5, +10, +64, +1024) bare, with leading zeros, embedded, and followed by suffixes that order the other way round; non-digit runs with equal FNV-1a-32 / Java hashes (liquid/costarring, Aa/BB, ...) alone and between digit runs; every length 0..600 of the common prefix (letters, zeros, digits, tokens, full-width digits; quick: every length to 128, every twelfth beyond) and runs of n against n+1 leading zeros. Every call runs under a 2 s watchdog (recorded as hang). Supplementary, outside the text of C20 (correspondence only): Lines on all strings up to 5 (6) over {a, LF, CR, b}; Split on all strings up to 4 (6) over {a , b} with separators empty, [,], a, aa, ab, [a,], on rune strings, and Split(s, empty) on valid/invalid byte strings. A case is non-trivial when the slice has a word loop or a non-zero byte / the cut is inside the string / a digit occurs.",
+	tr.Main("C20. mbits: every zero/non-zero pattern of every length 0..L (L=10 quick, 15 thorough) plus, for lengths up to 26 (40), all-zero, one and two non-zero bytes at every position; each at all 8 alignments inside a buffer with >= 8 guard bytes on both sides, guards 0xa5 and 0x00 (the whole buffer is compared after Zero). Scale: lengths 2^k-1, 2^k, 2^k+1 for k=5..13 and a few random ones up to 9000, at all 8 alignments, with the only non-zero bytes at the places that decide the counts (none, first, last, n-9, n-8, 7, 8, middle, random deep, both ends of a deep word) -- all 11 patterns up to 1100 bytes, 2-3 rotating ones above; Zero at every alignment up to 2100 bytes, at 2 of 8 alignments around 4096 and 1 of 8 around 8192 (quick; rotating with size and seed; thorough: all). Every non-zero byte value at every position of a 17-byte window. Trunc: every cut point n in -1..len+1 of every string of up to 3 (4) runes over an 11-rune alphabet of 1-4-byte encodings at the encoding-length boundaries, of every string of up to 4 (5) bytes over 8 valid/invalid byte classes, of random mixed strings, of every token of the wide alphabet (below) and every single byte value between neighbours of every width, of random strings of wide tokens; strings of 2^k-1..2^k+1 (+3) bytes, k=3..13, of one kind of rune (1-4 bytes, mixed) or of lead / continuation bytes only, cut at the start, middle and end; n = 2^62-1. CompareNatural: all ordered pairs of strings of length <= 3 (4) over {0 1 9 / : a}, all multisets of three strings of length <= 2 (the six comparisons of a triple are recorded and the order laws evaluated for every arrangement) and random triples of length <= 4, random longer strings with leading zeros and digit runs up to 25 digits paired with mutations of themselves; digit runs within 2 of 2^63, 2^64, 2^64+2^63, 2^65, 10^18, 10^19 bare, with leading zeros and embedded (all pairs, random triples), runs of 19-40 zeros. Wide alphabet: Unicode decimal digits outside ASCII (Nd; Arabic-Indic, Devanagari, Thai, full-width, mathematical, Brahmi, Adlam ...: 2-, 3- and 4-byte encodings), other numbers (No/Nl), Unicode spaces, non-ASCII letters, combining marks and joiners, 4-byte runes and the ends of the code space, invalid UTF-8 (stray continuation and lead bytes, overlong forms, surrogates, cut-off encodings of those digits) -- every token alone, before, after and inside ASCII digit runs and between letters (14 frames) against the same frame holding itself, its neighbour in the class, an ASCII digit, a zero, a letter, nothing, '/' and ':'; every byte value 0..255 in 8 frames; all ordered pairs of strings of up to 2 tokens and all multisets of three single tokens over 12 representatives, random triples of those; random strings of 1-6 tokens of all classes paired / tripled with mutations of themselves (same string, token exchanged within or across classes, ASCII digit for Unicode digit and back, leading zero of some script, token deleted / added / moved, one byte changed to any value, cut at any byte). Scale: strings agreeing on their first n bytes (one digit run, zeros, one run of letters, many short tokens, full-width digits, mixed runes), n around 2^k up to 2^11 (quick: fewer kinds per size above 300 bytes; thorough to 2^12), and strings of about 2^k bytes up to 2^13 differing within the first 30 bytes. Round 4: mbits on slices whose non-zero bytes are real text -- 52 tokens: well-formed 2-, 3- and 4-byte UTF-8 sequences, U+FFFD, a byte-order mark, surrogates, overlong forms incl. the overlong NUL c0 80, sequences beyond U+10FFFF, cut-off sequences, stray continuation bytes, ASCII -- at every position of windows up to 12 (20) bytes longer than the token, at the front / the back / both ends / the middle / followed or preceded by 1..9 zeros at all 8 alignments for 26 lengths up to 65, random pairs of tokens, whole lines of text, guards 0xa5, 0x00, 0x80, 0xbf, 0xc3; EVERY slice length 0..600 (all zero, text at the back, at the front, near both ends) and text at the ends and in the middle of slices of 2^k-1..2^k+1 bytes up to 8193; Trunc on every string length 0..600 cut around the end; CompareNatural on 15..19-digit numbers inside int64 that differ in the last digits only (2^49..2^62 and their neighbours, 2^53+1, powers of ten, runs of nines, random ones; v against v+1, +2, +5, +10, +64, +1024) bare, with leading zeros, embedded, and followed by suffixes that order the other way round; non-digit runs with equal FNV-1a-32 / Java hashes (liquid/costarring, Aa/BB, ...) alone and between digit runs; every length 0..600 of the common prefix (letters, zeros, digits, tokens, full-width digits; quick: every length to 128, every twelfth beyond) and runs of n against n+1 leading zeros. Round 5: mbits on word-level algebraic coincidences -- blocks of 2, 4 and 8 little-endian 64-bit words, each word non-zero, whose sum is 0 modulo 2^64 ((a, 2^64-a), (x, ^x+1), (1, ff..ff), two bytes 0x80 / four 0x40 / eight 0x20 at word tops, a carry over two words), whose xor is 0 (equal words, byte fills 0x01 0x40 0x80 0xc0 0xff), whose and is 0 (complementary words, single bits), whose product is 0 (2^32 twice, 2^63 and 2), the 32-bit halves summing to 0 -- in front of EVERY number 0..8B+8 of zero bytes at the end of the slice (TrailingZeroes) / behind as many at the front (LeadingZeroes), all 8 alignments when the block lies on the word grid, a ragged 0 / 5 / 11 bytes on the other side, far from the end (whole blocks of zeros, 2^k up to 1024, thorough 4096), two blocks in a row, next to a genuinely non-zero block; Zero on such blocks at the front, in the middle and at the end of a slice of 0xff; CompareNatural on strings that agree on a whole number of 8-byte blocks (8..40, 64, 128, 256 bytes) ending in 1..6 digits with the digit run going on behind the boundary in one string only, in both, in neither, both argument orders and triples; Trunc with a 2-, 3-, 4-byte rune across every such boundary behind ASCII, cut at every place within 5 bytes of it. Every call runs under a 2 s watchdog (recorded as hang). Supplementary, outside the text of C20 (correspondence only): Lines on all strings up to 5 (6) over {a, LF, CR, b}; Split on all strings up to 4 (6) over {a , b} with separators empty, [,], a, aa, ab, [a,], on rune strings, and Split(s, empty) on valid/invalid byte strings. A case is non-trivial when the slice has a word loop or a non-zero byte / the cut is inside the string / a digit occurs.",
 		exec, func(g *tr.G) {
 			// ---- mbits
 			L := g.Scale(10, 15)
@@ -557,6 +557,7 @@ func main() {
 				return // the end-of-allocation run is about the mbits cases only (same inputs: they come first)
 			}
 			emitTextMbits(g) // (byte contents, not lengths: guarded layout only)
+			emitWordCoincidences(g)
 			// ---- Trunc
 			allStrings(runeAlpha, g.Scale(3, 4), func(s string, k int) { emitTrunc(g, s, true, "runes") })
 			allStrings(badAlpha, g.Scale(4, 5), func(s string, k int) { emitTrunc(g, s, false, "byte-classes") })
@@ -574,6 +575,7 @@ func main() {
 			emitWideTrunc(g)
 			emitScaleTrunc(g)
 			emitSweepTrunc(g)
+			emitBlockTrunc(g)
 			// ---- supplementary (outside C20): Lines and Split
 			allStrings([]string{"a", "\n", "\r", "b"}, g.Scale(5, 6), func(s string, k int) {
 				g.Emit("N "+tr.Hex(s), strings.Contains(s, "\n"), "supp-lines")
@@ -671,5 +673,6 @@ func main() {
 			emitNumbers(g)
 			emitCollisions(g)
 			emitSweepCompare(g)
+			emitBlockCompare(g)
 		})
 }
